@@ -6,9 +6,11 @@ Import ListNotations.
 
 Section CgSem3.
   Variable g0 : mg nat.
+  Context {D : Type} {eqD : EqB D}.
   Variable U : Type.
-  Variable f : nat -> (nat -> bool) -> U -> bool.
-  Variable rho : nat -> bool.
+  Variable f : nat -> (nat -> D) -> U -> D.
+  Variable rho : nat * bool -> D.
+  Hypothesis rho_distinct : forall n, rho (n, false) <> rho (n, true).
   Hypothesis f_local : local g0 U f.
   Variable order : list nat.
   Hypothesis order_ok : is_topo g0 order = true.
@@ -133,7 +135,7 @@ Section CgSem3.
     pose proof (inv_keys _ _ _ _ _ _ _ _ _ I0) as keys. pose proof (inv_named _ _ _ _ _ _ _ _ _ I0) as named.
     destruct (is_inconsistent ev n1 n2) eqn:Einc; unfold StInv; cbn [fst snd].
     - split; [apply (merged_inv g ev I n1 n2 H1 Hne Hvn ev Heq); auto|].
-      intros H0. apply (inconsistent_never U f rho order u ev n1 n2 keys named Hvn Heq Einc). apply Hev. exact H0.
+      intros H0. apply (inconsistent_never U f rho rho_distinct order u ev n1 n2 keys named Hvn Heq Einc). apply Hev. exact H0.
     - destruct (ev_get ev n2) as [x|] eqn:E2.
       + assert (Hpr : ev_get ev n1 = None \/ ev_get ev n1 = Some x).
         { unfold is_inconsistent in Einc. rewrite E2 in Einc. destruct (ev_get ev n1) as [y|]; [|left; reflexivity]. right.
